@@ -2,6 +2,10 @@ mod front;
 mod c08;
 mod c09;
 mod c12;
+mod c10;
+mod c11;
+mod c24;
+mod mutate;
 
 fn main() {
     let args: Vec<String> = std::env::args().skip(1).collect();
@@ -28,6 +32,9 @@ fn main() {
         }
         return;
     }
+    if id == "parse-one" {
+        std::process::exit(c10::parse_one_main(&args[1]));
+    }
     if id == "fmt" {
         // debugging aid: vc-front fmt FILE [align] -> prints fmt(x) then fmt(fmt(x))
         let src = std::fs::read_to_string(&args[1]).unwrap();
@@ -45,6 +52,9 @@ fn main() {
         "C08" => c08::run(&ctx),
         "C09" => c09::run(&ctx),
         "C12" => c12::run(&ctx),
+        "C10" => c10::run(&ctx),
+        "C11" => c11::run(&ctx),
+        "C24" => c24::run(&ctx),
         _ => {
             eprintln!("unknown property id {id:?}");
             std::process::exit(2);
